@@ -71,7 +71,7 @@ func TestZZVerifC18(t *testing.T) {
 
 	n := core.N(400, 8000)
 	if zvRace {
-		n = core.N(60, 700)
+		n = core.N(60, 1500)
 	}
 	procsList := []int{2, 4, ncpu}
 	params := make([]hparams, n)
@@ -121,7 +121,7 @@ func TestZZVerifC18(t *testing.T) {
 		}
 		return core.N(q, th)
 	}
-	run.Floor("cas_races_overlapping_same_version", hmin(200, 4000))
+	run.Floor("cas_races_overlapping_same_version", hmin(120, 2400))
 	run.Floor("lifetimes_recreated", hmin(400, 8000))
 	run.Floor("stale_uid_writes_rejected", hmin(100, 2000))
 	run.Floor("watch_live_events", hmin(2000, 40000))
